@@ -14,7 +14,7 @@ BUDGET = {'quick': 5000, 'thorough': 200000}
 CAP_S = {'quick': 150, 'thorough': 3000}
 # thorough tier only: 300 s x 8 coverage-guided libFuzzer campaigns over the same strategy and oracle (vlib/fuzz_driver.py)
 FUZZ = {'thorough': (300, 8)}
-RULE = ('case = (hint H from the shared grammar with float / complex / overridden sub-hints injected at generated positions and depths, '
+RULE = ('case = (hint H from the shared grammar with float / complex / overridden sub-hints injected at generated positions and depths (also alone below type[...] when the replacement is a class or a union of classes), '
         'is_pep484_tower, hint_overrides {A: B} with A a class or a subscripted hint and B from the grammar incl. the documented '
         'self-referential form A -> A | C, violation_* options, object conforming to or violating the hand-rewritten hint H1, draws). '
         'Metamorphic oracle: my own structural rewrite (outermost first, an override is not re-applied inside its own replacement) gives H1; '
